@@ -31,6 +31,7 @@ type ixEvent struct {
 	Timeout int64  `json:"timeout,omitempty"`
 	Usable  bool   `json:"dst_usable,omitempty"`
 	NoChain bool   `json:"dst_chain_missing,omitempty"`
+	Poor    bool   `json:"sender_cannot_pay,omitempty"` // sent by an account without funds: runs, then fails at the fee
 }
 
 func chainOf(full string) string {
@@ -141,10 +142,11 @@ func (ir *ixRun) genBlock(pairs []ixPairDef) []ixEvent {
 			case y == 3:
 				idx = 1 << 63
 			}
-			if idx == req[k]+1 {
+			poor := idx == req[k]+1 && r.Intn(14) == 0 // the next valid request, from a sender who cannot pay for it
+			if idx == req[k]+1 && !poor {
 				req[k]++
 			}
-			evs = append(evs, ixEvent{Kind: model.KReq, From: p.from, To: p.to, Index: idx, Timeout: timeouts[r.Intn(len(timeouts))], Usable: p.usable, NoChain: p.noChain})
+			evs = append(evs, ixEvent{Kind: model.KReq, From: p.from, To: p.to, Index: idx, Timeout: timeouts[r.Intn(len(timeouts))], Usable: p.usable, NoChain: p.noChain, Poor: poor})
 		case x < 85: // receipt
 			idx := rcp[k] + 1
 			switch y := r.Intn(12); {
@@ -199,6 +201,14 @@ func (ir *ixRun) runBlock(evs []ixEvent) error {
 		default:
 			typ := map[string]pb.IBTP_Type{model.KReq: pb.IBTP_INTERCHAIN, model.KRcpSuccess: pb.IBTP_RECEIPT_SUCCESS, model.KRcpFailure: pb.IBTP_RECEIPT_FAILURE, model.KRcpRollbk: pb.IBTP_RECEIPT_ROLLBACK}[ev.Kind]
 			ib := harness.MkIBTP(ev.From, ev.To, ev.Index, typ, ev.Timeout)
+			if ev.Poor {
+				// the contracts accept it, then the fee cannot be paid: FAILED receipt, everything reverted - for
+				// the model this request was never made
+				txs = append(txs, w.IBTPTx(harness.DetKey("empty-account"), ib, []byte("proof")))
+				subs = append(subs, sub{ev: ev, accept: false, why: "sender cannot pay the fee", isIBTP: true})
+				ir.w.Count("ibtp_from_sender_without_funds", 1)
+				continue
+			}
 			txs = append(txs, w.IBTPTx(pier, ib, []byte("proof")))
 			mi := model.IxIBTP{From: ev.From, To: ev.To, Index: ev.Index, Kind: ev.Kind, Timeout: ev.Timeout, DstUsable: ev.Usable, ProofOK: ev.Kind == model.KReq || !ev.NoChain}
 			ok, why := ir.m.Submit(mi)
